@@ -373,6 +373,15 @@ func main() {
 	spec := &xplore.Spec{Name: "c17", Run: runCase, Recycle: 200}
 	thorough = os.Getenv("VERIF_TIER") == "thorough"
 	if par.IsWorker() {
+		// the worker describes a case from the family it builds itself; xplore compares the fingerprint with the
+		// coordinator's description and refuses to run a history that means something else here
+		spec.Describe = func(h []int) interface{} {
+			f := getFam(h[0])
+			if h[1] >= len(f.hists) {
+				return "no such history"
+			}
+			return map[string]interface{}{"n": h[0], "family": f.names[h[1]], "events": f.W.Describe(f.hists[h[1]])}
+		}
 		xplore.Worker(spec)
 	}
 	run := ev.Start("C17", "model_checking")
